@@ -171,6 +171,10 @@ def query_traversal(node, callback, is_table=False, is_target=False, parent_quer
             node_out = query_traversal(arg, callback, parent_query=parent_query) or arg
             array.append(node_out)
         node.args = array
+        if isinstance(node, ast.Function) and node.from_arg is not None:
+            node_out = query_traversal(node.from_arg, callback, parent_query=parent_query)
+            if node_out is not None:
+                node.from_arg = node_out
 
     elif isinstance(node, ast.WindowFunction):
         query_traversal(node.function, callback, parent_query=parent_query)
@@ -264,6 +268,11 @@ def query_traversal(node, callback, is_table=False, is_target=False, parent_quer
                 node.from_select = node_out
 
     elif isinstance(node, ast.Delete):
+        if node.table is not None:
+            node_out = query_traversal(node.table, callback, is_table=True, parent_query=node)
+            if node_out is not None:
+                node.table = node_out
+
         if node.where is not None:
             node_out = query_traversal(node.where, callback, parent_query=node)
             if node_out is not None:
@@ -276,6 +285,10 @@ def query_traversal(node, callback, is_table=False, is_target=False, parent_quer
                 node.field = node_out
 
     elif isinstance(node, ast.Case):
+        if node.arg is not None:
+            node_out = query_traversal(node.arg, callback, parent_query=parent_query)
+            if node_out is not None:
+                node.arg = node_out
         rules = []
         for condition, result in node.rules:
             condition2 = query_traversal(condition, callback, parent_query=parent_query)
@@ -285,9 +298,10 @@ def query_traversal(node, callback, is_table=False, is_target=False, parent_quer
             result = result if result2 is None else result2
             rules.append([condition, result])
         node.rules = rules
-        default = query_traversal(node.default, callback, parent_query=parent_query)
-        if default is not None:
-            node.default = default
+        if node.default is not None:
+            default = query_traversal(node.default, callback, parent_query=parent_query)
+            if default is not None:
+                node.default = default
 
     elif isinstance(node, list):
         array = []
